@@ -3,6 +3,7 @@ use crate::Args;
 pub mod c03;
 pub mod c07;
 pub mod c12;
+pub mod c13;
 pub mod c16;
 pub mod c17;
 pub mod rel;
@@ -26,6 +27,7 @@ pub fn dispatch(_cmd: &str, _a: &Args) -> bool {
         "c03-suite" => c03::suite(_a),
         "c07" => c07::run(_a),
         "c12" => c12::run(_a),
+        "c13" => c13::run(_a),
         "c16" => c16::run(_a),
         "c17" => c17::run(_a),
         "c10" => rel::c10(_a),
